@@ -9,7 +9,7 @@
    harness/cmd/lockscan; the two [vm_compute] theorems below are statements about THAT table, and
    [C28_components_linearizable] instantiates the premise of part 1 with it. *)
 From Coq Require Import String List NArith Bool.
-From LV Require Import model.LockDiscipline model.Lin proofs.LinSim proofs.LinHW proofs.Lin proofs.LinTable gen.LockTable.
+From LV Require Import model.LockDiscipline model.Lin proofs.LinSim proofs.LinHW proofs.LinHB proofs.Lin proofs.LinTable gen.LockTable.
 Import ListNotations.
 Local Open Scope string_scope.
 
@@ -36,6 +36,21 @@ Theorem C28_locked_race_free :
     shared_readonly state op local mstep kind -> none_stateless state op local mstep kind ->
     forall tr c, exec state op ret local linit mstep fin kind s0 tr c -> ~ race state op ret local fin kind c.
 Proof. exact locked_race_free. Qed.
+
+(* conflicting accesses are ordered by the lock: between an access of t inside its critical section and a
+   later access of t' inside its own, one of the two sections being exclusive, t releases the mutex and
+   afterwards t' acquires it (program order ; release/acquire ; program order) *)
+Theorem C28_conflicting_accesses_ordered :
+  forall (state op ret local : Type) (linit : op -> local) (mstep : op -> local -> state -> local * state)
+         (fin : op -> local -> option ret) (kind : op -> lkind) (s0 : state),
+    shared_readonly state op local mstep kind -> none_stateless state op local mstep kind ->
+    forall pre c0 c1 mid c2 t t' o l o' l',
+      exec state op ret local linit mstep fin kind s0 pre c0 ->
+      th _ _ _ _ c0 t = InCS _ _ _ o l -> step state op ret local linit mstep fin kind c0 (Body op ret t) c1 ->
+      run state op ret local linit mstep fin kind c1 mid c2 -> th _ _ _ _ c2 t' = InCS _ _ _ o' l' ->
+      t <> t' -> kind o = KExcl \/ kind o' = KExcl ->
+      exists m1 m2 m3, mid = (m1 ++ Rel op ret t :: m2 ++ Acq op ret t' :: m3)%list.
+Proof. exact conflicts_ordered. Qed.
 
 (* every trace of the atomic object is linearizable (the second half of the argument, on its own) *)
 Theorem C28_atomic_linearizable :
@@ -168,6 +183,7 @@ Proof. vm_compute. repeat split; reflexivity. Qed.
 Print Assumptions C28_locked_refines_atomic.
 Print Assumptions C28_locked_atomic_linearizable.
 Print Assumptions C28_locked_race_free.
+Print Assumptions C28_conflicting_accesses_ordered.
 Print Assumptions C28_atomic_linearizable.
 Print Assumptions C28_unlocked_read_not_linearizable.
 Print Assumptions C28_lock_table_ok.
